@@ -10,6 +10,7 @@ import numpy.typing as npt
 from scipy.special import erf, expi
 
 from .mesh import Element
+from .parametrization import PiecewisePolygon
 from .quadrature import (DuffyScheme2D, ProductScheme2D,
                          gauss_quadrature_scheme, log_quadrature_scheme)
 from .single_layer_exact import (spacetime_evaluated_1,
@@ -108,7 +109,9 @@ def MP_SL_matrix_col(j: int) -> npt.ArrayLike:
 
 class SingleLayerOperator:
     def __init__(self, mesh, quad_order=12, pw_exact=False, cache_dir=None):
-        self.pw_exact = pw_exact
+        # The closed-form path integrates over straight panels only.
+        self.pw_exact = pw_exact and isinstance(mesh.gamma_space,
+                                                PiecewisePolygon)
         self.gauss_scheme = gauss_quadrature_scheme(23)
         self.gauss_2d = ProductScheme2D(self.gauss_scheme)
         self.log_scheme = log_quadrature_scheme(quad_order, quad_order)
